@@ -23,6 +23,7 @@ func VP_C01_charstring_raw() {
 	if ns > 0 {
 		info.subrs = [][]byte{vpBytes("s0", ns), nil, vpBytes("s2", vpChoose("s2len", ns+1))}
 	}
+	vpStepLimit(300000)
 	g, err := info.decodeCharString(code, "g")
 	vpAssert("glyph-xor-error", (g == nil) != (err == nil))
 	if err == nil {
@@ -63,7 +64,10 @@ func VP_C01_charstring_items() {
 		}
 	}
 	info := &decodeInfo{}
-	info.subrs = [][]byte{{14}, nil, {139, 10}, {11}, {139, 139, 12, 16, 11}}
+	// 0: endchar, 2: tail call of 0, 3: return, 4: flex end without arguments, 5: tail call of itself,
+	// 6/7: a cycle of tail calls, 8: non-tail call of itself
+	info.subrs = [][]byte{{14}, nil, {139, 10}, {11}, {139, 139, 12, 16, 11}, {144, 10}, {146, 10}, {145, 10}, {147, 10, 11}}
+	vpStepLimit(300000)
 	g, err := info.decodeCharString(code, "g")
 	vpAssert("glyph-xor-error", (g == nil) != (err == nil))
 	if err == nil {
